@@ -458,7 +458,15 @@ func BuildSeqHeaderFromVpsSpsPps(vps, sps, pps []byte) ([]byte, error) {
 	return sh, nil
 }
 
-func ParseVps(vps []byte, ctx *Context) error {
+func ParseVps(vps []byte, ctx *Context) (err error) {
+	// see avc.ParseSps: a truncated bit stream can make the bit reader index past its buffer
+	defer func() {
+		if r := recover(); r != nil {
+			Log.Errorf("ParseVps panic recovered. r=%v", r)
+			err = nazaerrors.Wrap(base.ErrHevc)
+		}
+	}()
+
 	if len(vps) < 2 {
 		return nazaerrors.Wrap(base.ErrHevc)
 	}
@@ -492,8 +500,14 @@ func ParseVps(vps []byte, ctx *Context) error {
 	return parsePtl(&br, ctx, vpsMaxSubLayersMinus1)
 }
 
-func ParseSps(sps []byte, ctx *Context) error {
-	var err error
+func ParseSps(sps []byte, ctx *Context) (err error) {
+	// see avc.ParseSps: a truncated bit stream can make the bit reader index past its buffer
+	defer func() {
+		if r := recover(); r != nil {
+			Log.Errorf("ParseSps panic recovered. r=%v", r)
+			err = nazaerrors.Wrap(base.ErrHevc)
+		}
+	}()
 
 	if len(sps) < 2 {
 		return nazaerrors.Wrap(base.ErrHevc)
